@@ -187,6 +187,8 @@ def validate_evidence(path):
 # parallel enumeration
 
 _worker_fn = None
+_HISTORY = []          # cases this (worker) process has run so far
+HISTORY_CAP = 3000
 
 
 def _call_chunk(args):
@@ -197,11 +199,13 @@ def _call_chunk(args):
     for idx, case in enumerate(chunk):
         try:
             res = fn(case)
-            if idx and isinstance(res, dict) and res.get('viol') and isinstance(res.get('case'), dict):
-                # the cases of a chunk run one after the other in one (freshly forked) process: whatever the library
-                # keeps between calls is part of the history of this violation, so the history goes into the replay
-                res['case'] = dict(res['case'], _session=list(chunk[:idx]))
+            if _HISTORY and isinstance(res, dict) and res.get('viol') and isinstance(res.get('case'), dict):
+                # cases run one after the other in long-lived worker processes: whatever the library keeps between calls
+                # is part of the history of this violation, so the worker's history goes into the replay (and is
+                # shrunk to the case alone, or one earlier case + the case, when that reproduces it - see Report.finish)
+                res['case'] = dict(res['case'], _session=list(_HISTORY[-HISTORY_CAP:]))
             out.append(res)
+            _HISTORY.append(case)
         except HarnessError:
             raise
         except BaseException as exc:
@@ -221,6 +225,44 @@ def _call_chunk(args):
     return out
 
 
+def _in_child(fn, args):
+    """fn(args) in a freshly forked child of this process; the (picklable) result, HarnessError on any failure."""
+    import pickle
+    r, w = os.pipe()
+    sys.stdout.flush()
+    pid = os.fork()
+    if pid == 0:
+        code = 0
+        try:
+            os.close(r)
+            try:
+                out = ('ok', fn(args))
+            except HarnessError as exc:
+                out = ('harness', str(exc))
+            except BaseException:  # noqa
+                out = ('harness', 'unexpected exception in a worker:\n' + traceback.format_exc())
+            with os.fdopen(w, 'wb') as fh:
+                fh.write(pickle.dumps(out))
+        except BaseException:  # noqa
+            code = 3
+        finally:
+            os._exit(code)
+    os.close(w)
+    with os.fdopen(r, 'rb') as fh:
+        data = fh.read()
+    _, status = os.waitpid(pid, 0)
+    if not data:
+        raise HarnessError('worker process died without a result (wait status %d)' % status)
+    kind, val = pickle.loads(data)
+    if kind != 'ok':
+        raise HarnessError(val)
+    return val
+
+
+def _call_chunk_isolated(args):
+    return _in_child(_call_chunk, args)
+
+
 def _call_session(args):
     modname, fname, cases = args
     fn = getattr(importlib.import_module(modname), fname)
@@ -232,9 +274,7 @@ def _call_session(args):
 
 def run_isolated(modname, fname, cases):
     """Run fn over `cases` one after the other in one freshly forked process; the result of the last one."""
-    ctx = multiprocessing.get_context('fork')
-    with ctx.Pool(1, maxtasksperchild=1) as pool:
-        return pool.apply(_call_session, ((modname, fname, list(cases)),))
+    return _in_child(_call_session, (modname, fname, list(cases)))
 
 
 def shrink_session(modname, fname, case, sig):
@@ -251,11 +291,23 @@ def shrink_session(modname, fname, case, sig):
         return any(s == sig for s, _ in (r or {}).get('viol', ()))
     if shows([]):
         return bare
-    if len(session) <= 64:
-        for c in reversed(session):
-            if shows([c]):
-                return dict(bare, _session=[c])
-    return case
+    for c in list(reversed(session))[:48]:
+        if shows([c]):
+            return dict(bare, _session=[c])
+    if not shows(session):
+        # not reproducible from the recorded history either: report it with the history, the replay will say so
+        return case
+    # bisect the history: shortest suffix that still shows it
+    lo, hi = 0, len(session)          # session[lo:] shows it; find the largest lo
+    while hi - lo > 1:
+        mid = (lo + hi) // 2
+        if shows(session[mid:]):
+            lo = mid
+        else:
+            hi = mid
+    if shows([session[lo]]):          # the first case of the shortest suffix is needed; often it is also enough
+        return dict(bare, _session=[session[lo]])
+    return dict(bare, _session=session[lo:])
 
 
 def chunked(it, n):
@@ -273,14 +325,15 @@ def pmap(modname, fname, cases, chunk=200, nproc=None):
     """Run module.fname(case) for every case in worker processes (fork), yielding results in
     enumeration order."""
     nproc = nproc or NPROC
+    # (a fresh process per chunk would isolate chunks from each other, but 16 concurrently forking workers spend their time
+    # in copy-on-write faults here: 25x slower.  Workers are long-lived; a violation carries its worker's history instead.)
     if nproc <= 1:
         for ch in chunked(cases, chunk):
             for r in _call_chunk((modname, fname, ch)):
                 yield r
         return
     ctx = multiprocessing.get_context('fork')
-    # one fresh process per chunk: state that the library keeps between calls cannot leak from one chunk into another
-    with ctx.Pool(nproc, maxtasksperchild=1) as pool:
+    with ctx.Pool(nproc) as pool:
         for res in pool.imap(_call_chunk, ((modname, fname, ch) for ch in chunked(cases, chunk))):
             for r in res:
                 yield r
